@@ -137,6 +137,48 @@ def gen_cases(tier, seed):
                       'terms': terms, 'order': order, 'opts': kw,
                       'mseed': r.randrange(1 << 30)})
         k += 1
+    # (b1) partial orbits with explicit orbital-energy denominators over target
+    # indices: a target permutation that leaves the tensor part (anti)symmetric but
+    # changes the denominator is no symmetry of the term
+    for _ in range(36 * mult):
+        tn = r.choice(['x', 'x', 'Y'])
+        def one(p_, q_):
+            if tn == 'Y':
+                return {'t': 'amp', 'name': 'Y', 'up': [q_], 'lo': [p_]}
+            return {'t': 'non', 'name': 'x', 'up': [p_, q_]}
+        objs = [one('i', 'a'), one('j', 'b')]
+        den = r.choice([[['1', 'a'], ['-1', 'i']], [['1', 'i'], ['-1', 'a']],
+                        [['1', 'i'], ['1', 'j'], ['-1', 'a']],
+                        [['1', 'a'], ['1', 'b'], ['-1', 'i']]])
+        objs.append({'t': 'br', 'e': den, 'exp': -r.choice([1, 1, 2])})
+        if r.random() < 0.3:
+            objs.append({'t': 'anti', 'name': 'V', 'up': ['i', 'j'],
+                         'lo': ['a', 'b'], 'bk': 0})
+        t0 = {'pref': r.choice(['1', '-1/2', '2']), 'objs': objs}
+        a_, b_ = r.choice([('a', 'b'), ('i', 'j')])
+        sg = r.choice(['1', '-1'])
+        t1 = ir.rename_term(t0, {a_: b_, b_: a_})
+        t1['pref'] = f"({t0['pref']})*({sg})"
+        terms = [t0, t1]
+        if r.random() < 0.3:      # the full orbit
+            a2, b2 = ('i', 'j') if a_ == 'a' else ('a', 'b')
+            extra = []
+            for x in terms:
+                y = ir.rename_term(x, {a2: b2, b2: a2})
+                y['pref'] = f"({x['pref']})*({sg})"
+                extra.append(y)
+            terms = terms + extra
+        order = ['i', 'j', 'a', 'b']
+        split = 2
+        if r.random() < 0.3:
+            r.shuffle(order)
+            split = None
+        cases.append({'id': f'C10-{tier[0]}{seed}-{k:05d}-permden', 'kind': 'perm',
+                      'terms': terms, 'order': order,
+                      'explicit_targets': True,
+                      'opts': {'anti': r.random() < 0.6, 'split': split, 'bk': 0},
+                      'mseed': r.randrange(1 << 30)})
+        k += 1
     # (b2) term maps over orbits of three same-space target indices: cyclic
     # products P_ij P_ik are not their own inverse
     for _ in range(10 * mult):
@@ -314,8 +356,10 @@ def run_perm(case, res):
     if e == 0:
         res.skip('zero input')
         return
-    E = Expr(e, real=True)
     order = [ir.mk_index(s) for s in case['order']]
+    # denominators over target indices: the targets have to be given explicitly
+    E = Expr(e, real=True, target_idx=order) if case.get('explicit_targets') \
+        else Expr(e, real=True)
     kw = _perm_kwargs(case)
     model = tm.Model(2, 3, seed=case['mseed'], sym={'V': 1, 'f': 1})
     ev = tm.Evaluator(model)
